@@ -497,6 +497,11 @@ func (vt *Model) print(seq ansi.Print) {
 	if vt.cursor.col >= vt.margin.right+1 && vt.mode.decawm {
 		vt.lastCol = true
 	}
+	if vt.cursor.col > vt.margin.right {
+		// The wrap is deferred: until it happens the cursor stays on the
+		// last column
+		vt.cursor.col = vt.margin.right
+	}
 }
 
 // scrollUp shifts all text upward by n rows. Semantically, this is backwards -
